@@ -27,9 +27,10 @@ import loadgen as G
 from sexp import Sym, dumps
 
 PROP = 'C18'
-RULE = ('exhaustive histories up to length 4 (quick: 3, plus length 4 over the reduced alphabet) over the alphabet '
-        '{input, build} + {mut k m : k in {0,1}, m in a fixed list of 9 mutations} on a fixed two-class scenario, '
-        'only histories whose mutations target an already built metamodel; plus random histories of length <= 12 over '
+RULE = ('exhaustive histories up to length 4 (thorough: 5) over the alphabet {input, build} + {mut k m : k in {0,1}, '
+        'm in a fixed list of 9 mutations}, and of length 5 (thorough: 6) over a reduced alphabet of 5 mutations, on a '
+        'fixed two-class scenario, only histories with a build whose mutations target an already built metamodel; '
+        'plus random histories of length <= 12 over '
         'generated schemas and populations with randomly chosen mutations. Non-trivial = at least two metamodels were '
         'built and a mutation changed one of them; distinct = distinct (chunks, history)')
 EXHAUSTIVE = {'quick': True, 'thorough': True}
@@ -213,17 +214,16 @@ def _random_case(rng, maxlen):
 def generate(ctx):
     alphabet = [['input'], ['build']] + [['mut', k, m] for k in (0, 1) for m in FIXED_MUTS]
     reduced = [['input'], ['build']] + [['mut', k, FIXED_MUTS[i]] for k in (0, 1) for i in REDUCED]
-    full_len = ctx.pick(3, 4)
+    full_len = ctx.pick(4, 5)
     for n in range(1, full_len + 1):
         for h in _valid_histories(alphabet, n):
             if any(o[0] == 'build' for o in h):
                 yield {'chunks': FIXED_CHUNKS, 'ops': [list(o) for o in h], 'fam': 'exhaustive'}
-    if full_len < 4:
-        for h in _valid_histories(reduced, 4):
-            if any(o[0] == 'build' for o in h):
-                yield {'chunks': FIXED_CHUNKS, 'ops': [list(o) for o in h], 'fam': 'exhaustive4'}
+    for h in _valid_histories(reduced, full_len + 1):
+        if any(o[0] == 'build' for o in h):
+            yield {'chunks': FIXED_CHUNKS, 'ops': [list(o) for o in h], 'fam': 'exhaustive-reduced'}
     rng = ctx.rng.fork('random')
-    for i in range(ctx.pick(1500, 20000)):
+    for i in range(ctx.pick(4000, 40000)):
         yield _random_case(rng.fork(i), 12)
 
 
